@@ -521,3 +521,102 @@ def alias_part(tier, d, verdict, bindir):
             if r['problems']:
                 bad.append(r)
     return {'alias_command_lines': len(cases), 'alias_contended_command_lines': len(cont), 'alias_failures': len(bad)}, bad
+
+
+# ------------------------------------------------------------------------------------------------ how a .do file is run
+def exec_part(tier, d, verdict, bindir, pid='C13'):
+    """RedoExec (the first-line / interpreter rule) evaluated by TLC on every first line of up to MaxTok tokens; for a sample
+    (quick) or all (thorough) of them a real build of a target whose .do file starts with that line must behave exactly as
+    the command line the specification predicts behaves when it is executed directly (exit status, output, shell flags)."""
+    import random
+    import subprocess
+    from concurrent.futures import ThreadPoolExecutor
+    cov, tool = {}, []
+    res, rows = run_mc('MC_Exec', {'MaxTok': 3 if tier == 'quick' else 4}, ['NonEmpty', 'ShOrAbsolute', 'Kept', 'Plain', 'Export'], d,
+                       workers=4, heap='4g')
+    cov['exec_first_lines'] = res.distinct
+    cov['exec_states'] = res.distinct
+    if res.error:
+        tool.append('MC_Exec: ' + res.error)
+        return cov, tool
+    if res.violated:
+        rp = os.path.join(d, 'counterexample_exec.txt')
+        open(rp, 'w').write('RedoExec violates %s\n\n%s' % (res.violated, res.trace))
+        verdict.violation('spec:exec:%s' % res.violated, rp, 'RedoExec violates %s' % res.violated)
+        return cov, tool
+    table = []
+    for r in rows:
+        line = ''.join(jl(r['toks']))
+        prefix = [js(x) for x in jl(r['prefix'])]
+        table.append((line, prefix))
+    table.sort()
+    rnd = random.Random(common.seed())
+    # always the shapes around "#!", then a sample
+    must = [t for t in table if t[0].strip() in ('#!', '#', '!', '', '#!/bin/sh', '#! /bin/sh', '#!/bin/sh -e', '#!/usr/bin/env sh',
+                                                  '#!/usr/bin/env  sh', '#!sh', '#!/bin/sh\t-e', '#!/bin/sh  -x')]
+    rest = [t for t in table if t not in must]
+    rnd.shuffle(rest)
+    chosen = must + (rest if tier == 'thorough' else rest[:150])
+    body = 'echo "flags=$- n=$# a1=$1 a2=$2"\necho "to-stderr" >&2\nexit 0\n'
+    env = {k: v for k, v in os.environ.items() if not k.startswith('REDO') and k not in ('MAKEFLAGS', 'MFLAGS', 'MAKELEVEL')}
+    env['PATH'] = bindir + ':' + env.get('PATH', '/usr/bin:/bin')
+    env['REDO_LOG'] = '0'
+    root = os.path.join(d, 'exec')
+    shutil.rmtree(root, ignore_errors=True)
+
+    def one(iv):
+        i, (line, prefix) = iv
+        pd = os.path.join(root, 'p%05d' % i)
+        os.makedirs(pd)
+        with open(os.path.join(pd, 't.do'), 'w') as f:
+            f.write(line + '\n' + body)
+        # the oracle: the predicted command line, executed directly in a twin directory
+        od = os.path.join(root, 'o%05d' % i)
+        os.makedirs(od)
+        shutil.copy(os.path.join(pd, 't.do'), os.path.join(od, 't.do'))
+        try:
+            o = subprocess.run(prefix + ['t.do', 't', 't', 't.redo.tmp'], cwd=od, env=env, stdin=subprocess.DEVNULL,
+                               stdout=subprocess.PIPE, stderr=subprocess.PIPE, timeout=20)
+            orc, oout = o.returncode, o.stdout.decode('utf-8', 'replace')
+        except (FileNotFoundError, PermissionError, OSError):
+            orc, oout = 127, ''
+        r = subprocess.run(['redo', 't'], cwd=pd, env=env, stdin=subprocess.DEVNULL, stdout=subprocess.PIPE,
+                           stderr=subprocess.PIPE, timeout=30)
+        err = r.stderr.decode('utf-8', 'replace')
+        have = None
+        if os.path.exists(os.path.join(pd, 't')):
+            have = open(os.path.join(pd, 't')).read()
+        problems = []
+        if 'panicked' in err or r.returncode == 101:
+            problems.append('redo aborted: ' + err[-300:])
+        if (orc == 0) != (r.returncode == 0):
+            problems.append('exit status %s, the predicted command line %r exits %s: %s' % (r.returncode, prefix, orc, err[-200:]))
+        # (a first line that is itself a command, e.g. `/usr/bin/env`, may print the environment, which differs: the line
+        # the script body prints is what is compared)
+        def mark(txt):
+            return [ln for ln in (txt or '').split('\n') if ln.startswith('flags=')]
+        if orc == 0 and (have is None or mark(have) != mark(oout)):
+            problems.append('target is %r, the predicted command line writes %r' % (have, oout))
+        if orc != 0 and have is not None:
+            problems.append('a failing script left a target: %r' % have)
+        if os.path.lexists(os.path.join(pd, 't.redo.tmp')):
+            problems.append('t.redo.tmp left behind')
+        if not problems:
+            shutil.rmtree(pd, ignore_errors=True)
+        shutil.rmtree(od, ignore_errors=True)
+        return line, prefix, problems, pd
+
+    bad = []
+    with ThreadPoolExecutor(max_workers=8) as ex:
+        for line, prefix, problems, pd in ex.map(one, enumerate(chosen)):
+            if problems:
+                bad.append({'first_line': line, 'predicted_prefix': prefix, 'problems': problems, 'dir': pd})
+    cov['exec_real_builds'] = len(chosen)
+    cov['exec_real_builds_agreeing'] = len(chosen) - len(bad)
+    if bad:
+        rp = os.path.join(d, 'exec_mismatch.json')
+        json.dump(bad, open(rp, 'w'), indent=1)
+        verdict.violation('exec:firstline', rp,
+                          '%d first lines of a .do file are not run as RedoExec says, e.g. %r: %s'
+                          % (len(bad), bad[0]['first_line'], '; '.join(bad[0]['problems'])[:400]))
+    return cov, tool
